@@ -472,6 +472,122 @@ func runC05(c *Ctx) {
 		}
 	}
 
+	// ---------------------------------------------------------------- R8
+	c.rule("R8", "the refresh starts from a context that does not carry the stale answer; only a non-nil refreshed answer is stored", 2)
+	if ex := c.fn(relCachePlugin, "Cache", "Exec"); ex != nil {
+		var lazyCall, setResp ssa.Instruction
+		eachInstr(ex, func(in ssa.Instruction) {
+			if ci, ok := in.(*ssa.Call); ok {
+				switch {
+				case strings.HasSuffix(callName(ci), "Cache).doLazyUpdate"):
+					lazyCall = in
+				case callName(ci) == "(*pkg/query_context.Context).SetResponse":
+					if ex2, ok := ci.Call.Args[1].(*ssa.Extract); ok {
+						if cl, ok := ex2.Tuple.(*ssa.Call); ok && staticCallee(cl) == get {
+							setResp = in
+						}
+					}
+				}
+			}
+		})
+		if lazyCall == nil || setResp == nil {
+			c.anchorMissing("doLazyUpdate / SetResponse(cached) in Cache.Exec")
+		} else {
+			_, after := reachAvoiding(setResp, func(x ssa.Instruction) bool { return x == lazyCall }, nil)
+			c.check(!after, "refresh-before-stale-attached", instrPos(lazyCall), "the refresh context is copied before the stale answer is attached to the query context",
+				"the background refresh is started after the stale answer was attached: its context copy carries the stale answer, and when the refresh does not replace it (upstream failure, guarded chain) the stale answer is stored again as a fresh entry")
+		}
+	}
+	if dl := c.fn(relCachePlugin, "Cache", "doLazyUpdate"); dl != nil {
+		good := false
+		eachInstrDeep(dl, func(f *ssa.Function, in ssa.Instruction) {
+			ci, ok := in.(*ssa.Call)
+			if !ok || staticCallee(ci) != save {
+				return
+			}
+			for _, g := range guardsOfInstr(in) {
+				if cm, ok := g.asCmp(); ok && cm.X == ci.Call.Args[1] && isNilConst(cm.Y) && cm.Op == token.NEQ {
+					if cl, ok := cm.X.(*ssa.Call); ok && callName(cl) == "(*pkg/query_context.Context).R" {
+						good = true
+					}
+				}
+			}
+		})
+		c.check(good, "refresh-stores-own-answer", dl.Pos(), "the refresh stores qCtx.R() of its own context only when non-nil", "the refresh stores something else than the non-nil response of its own context")
+	}
+
+	// ---------------------------------------------------------------- R9
+	c.rule("R9", "a served cache hit is not stored again; the minimal TTL is the minimum over all non-OPT records", 2)
+	if ex := c.fn(relCachePlugin, "Cache", "Exec"); ex != nil {
+		good := false
+		eachInstr(ex, func(in ssa.Instruction) {
+			ci, ok := in.(*ssa.Call)
+			if !ok || staticCallee(ci) != save {
+				return
+			}
+			r := ci.Call.Args[1]
+			for _, g := range guardsOfInstr(in) {
+				if cm, ok := g.asCmp(); ok && cm.Op == token.NEQ && !isNilConst(cm.Y) && !isNilConst(cm.X) {
+					a, b := cm.X, cm.Y
+					if b == r {
+						a, b = b, a
+					}
+					if a == r {
+						if e2, ok := b.(*ssa.Extract); ok {
+							if cl, ok := e2.Tuple.(*ssa.Call); ok && staticCallee(cl) == get {
+								good = true
+							}
+						}
+					}
+				}
+			}
+		})
+		c.check(good, "hit-not-restored", ex.Pos(), "the response is stored only when it is not the served cache copy",
+			"the served cache copy is stored again after the chain ran: a stale (lazy) answer with its 5 s TTL is re-admitted as a fresh entry and every hit restarts the entry's age")
+	}
+	if gm := c.fn(relDnsutils, "", "GetMinimalTTL"); gm != nil {
+		// result: 0 without records, else a value that is only ever replaced by a smaller header TTL of a non-OPT record
+		minOK, optOK := false, false
+		eachInstr(gm, func(in ssa.Instruction) {
+			phi, ok := in.(*ssa.Phi)
+			if !ok {
+				return
+			}
+			for i, e := range phi.Edges {
+				k, isTtl := loadedField(e)
+				if !isTtl || k != "github.com/miekg/dns.RR_Header.Ttl" {
+					continue
+				}
+				for _, g := range guardsOf(phi.Block().Preds[i]) {
+					cm, ok := g.asCmp()
+					if !ok {
+						continue
+					}
+					if cm.X == e && cm.Op == token.LSS {
+						if _, isPhi := cm.Y.(*ssa.Phi); isPhi {
+							minOK = true
+						}
+					}
+					if k2, ok := loadedField(cm.X); ok && k2 == "github.com/miekg/dns.RR_Header.Rrtype" && cm.Op == token.NEQ {
+						if n, ok := constInt(cm.Y); ok && n == 41 {
+							optOK = true
+						}
+					}
+				}
+			}
+		})
+		touchesAll := map[string]bool{}
+		eachInstr(gm, func(in ssa.Instruction) {
+			if fa, ok := in.(*ssa.FieldAddr); ok {
+				k, _ := fieldKey(fa)
+				touchesAll[fieldTail(k)] = true
+			}
+		})
+		c.check(minOK && optOK && touchesAll["Answer"] && touchesAll["Ns"] && touchesAll["Extra"], "minimal-ttl", gm.Pos(),
+			"minimum over answer, authority and additional records, OPT excluded",
+			fmt.Sprintf("GetMinimalTTL is not the minimum over all non-OPT records of all three sections (replace-if-smaller: %v, OPT skipped: %v, sections: %v)", minOK, optOK, touchesAll))
+	}
+
 	// ---------------------------------------------------------------- R6
 	c.rule("R6", "Get hides expired entries; the sweep deletes only expired ones", 2)
 	checkExpiryGuards(c)
